@@ -1205,7 +1205,87 @@ fn fixed_programs() -> Vec<Program> {
     out
 }
 
+// ---------------------------------------------------------------------------------------------
+// chunk size 0 ("all chunk sizes"): an encoder call must come back — with an error, or with a container that decodes to
+// what was added. A call that loops forever cannot be observed from inside the process, so the three chunking entry
+// points are called in a CHILD process (this binary, `--zero-chunk-probe <call>`) under an address-space limit and a
+// deadline; the parent judges what the child printed, or that it never answered.
+
+const ZERO_CHUNK_CALLS: [&str; 3] = ["BlteBuilder::add_data", "BlteBuilder::add_mixed_data", "BlteFile::compress"];
+
+fn zero_chunk_child(call: &str) -> ! {
+    // 1 GiB of address space is plenty for a 300-byte payload
+    let lim = libc::rlimit { rlim_cur: 1 << 30, rlim_max: 1 << 30 };
+    // SAFETY: plain setrlimit call with a valid struct
+    unsafe {
+        libc::setrlimit(libc::RLIMIT_AS, &lim);
+    }
+    let data: Vec<u8> = (0..300u32).map(|i| (i * 7 + 3) as u8).collect();
+    let r: Result<Vec<u8>, String> = match call {
+        "BlteBuilder::add_data" => BlteBuilder::new().with_chunk_size_unchecked(0).add_data(&data).and_then(BlteBuilder::build).map_err(|e| e.to_string()).and_then(|f| CascFormat::build(&f).map_err(|e| e.to_string())),
+        "BlteBuilder::add_mixed_data" => BlteBuilder::new().with_chunk_size_unchecked(0).add_mixed_data(&data, None).and_then(BlteBuilder::build).map_err(|e| e.to_string()).and_then(|f| CascFormat::build(&f).map_err(|e| e.to_string())),
+        _ => BlteFile::compress(&data, 0, CompressionMode::None).map_err(|e| e.to_string()).and_then(|f| CascFormat::build(&f).map_err(|e| e.to_string())),
+    };
+    match r {
+        Err(e) => println!("ZC err {}", e.replace('\n', " ")),
+        Ok(bytes) => {
+            let none = |_: u64| None;
+            match rblte::decode(&bytes, &none) {
+                Ok(d) if d.content() == data => println!("ZC ok-decodes-to-input {}", bytes.len()),
+                Ok(d) => println!("ZC ok-decodes-to-other {} {}", bytes.len(), d.content().len()),
+                Err(e) => println!("ZC ok-undecodable {}", e.replace('\n', " ")),
+            }
+        }
+    }
+    std::process::exit(0);
+}
+
+fn zero_chunk_probe(ctx: &Ctx) {
+    let Ok(exe) = std::env::current_exe() else { return ctx.inconclusive("zero-chunk probe: current_exe") };
+    for call in ZERO_CHUNK_CALLS {
+        let child = std::process::Command::new(&exe).arg("--zero-chunk-probe").arg(call).stdout(std::process::Stdio::piped()).stderr(std::process::Stdio::null()).spawn();
+        let Ok(mut child) = child else { return ctx.inconclusive("zero-chunk probe: spawn") };
+        let t0 = std::time::Instant::now();
+        let status = loop {
+            match child.try_wait() {
+                Ok(Some(st)) => break Some(st),
+                Ok(None) if t0.elapsed() > std::time::Duration::from_secs(20) => {
+                    let _ = child.kill();
+                    let _ = child.wait();
+                    break None;
+                }
+                Ok(None) => std::thread::sleep(std::time::Duration::from_millis(20)),
+                Err(_) => break None,
+            }
+        };
+        let mut out = String::new();
+        if let Some(mut so) = child.stdout.take() {
+            use std::io::Read;
+            let _ = so.read_to_string(&mut out);
+        }
+        ctx.eval_nontrivial(mix64(fnv64(b"zero-chunk"), fnv64(call.as_bytes())));
+        let line = out.lines().find(|l| l.starts_with("ZC ")).unwrap_or("");
+        let detail = json!({"call": call, "chunk_size": 0, "payload_len": 300, "child_output": line, "child_status": format!("{status:?}"), "elapsed_ms": t0.elapsed().as_millis() as u64, "replay": "c01 --zero-chunk-probe <call> (runs the call alone under a 1 GiB address-space limit)"});
+        if line.starts_with("ZC err") {
+            ctx.obs(&format!("zero_chunk_size.{call}.refused"), 1);
+        } else if line.starts_with("ZC ok-decodes-to-input") {
+            ctx.obs(&format!("zero_chunk_size.{call}.ok-decodes-to-input"), 1);
+        } else if line.starts_with("ZC ok") {
+            ctx.violation(&format!("C01|{call}|container-does-not-decode-to-added-bytes|chunk_size=0"), "with chunk size 0 the call returned a container that does not decode to the data", detail);
+        } else {
+            // no answer: the child was killed at the deadline or died on the address-space limit
+            ctx.violation(&format!("C01|{call}|call-never-returns|chunk_size=0"), "with chunk size 0 and non-empty data the call neither returns an error nor a container (endless chunk loop: killed at the 20 s deadline or by the 1 GiB address-space limit)", detail);
+        }
+    }
+}
+
 fn main() {
+    {
+        let a: Vec<String> = std::env::args().collect();
+        if let Some(i) = a.iter().position(|x| x == "--zero-chunk-probe") {
+            zero_chunk_child(a.get(i + 1).map_or("", String::as_str));
+        }
+    }
     let ctx = Ctx::init("C01", "exploration");
     ctx.set_rule("a case is a generated builder program (1-8 calls over with_compression / with_chunk_size(_unchecked) / with_encryption / without_encryption / add_data / add_mixed_data / add_encrypted_data / add_chunk, payload classes of DESIGN 4.1, sizes at chunk boundaries), or one call of BlteFile::compress / single_chunk / multi_chunk, or one chunk-primitive round trip; judged only if every encoder call returned Ok; non-trivial = >= 2 add calls or >= 2 chunks or an encrypted chunk; distinct by hash of (calls, parameters, payload bytes, keys)");
     ctx.assume("vh::refimpl::blte (own header/table parser, own LZ4 block decoder, own Salsa20/RC4, zlib via flate2, MD5 via the md5 crate) decodes BLTE correctly; its primitives are anchored by published vectors at start-up and it is re-checked by the Python decoder pyref/c01.py over a sample of the same container bytes");
@@ -1213,6 +1293,9 @@ fn main() {
     if let Err(e) = vh::refimpl::self_test_all() {
         ctx.inconclusive(&format!("reference self-test failed: {e}"));
         ctx.finish();
+    }
+    if ctx.replay.is_none() {
+        zero_chunk_probe(&ctx);
     }
 
     let tdir = std::env::var("CARGO_TARGET_DIR").unwrap_or_else(|_| "/verif/harness/target".to_string());
